@@ -308,6 +308,23 @@ def other_forms(r, quick, prop):
                     bd, hd, mr, len(ar_blocks), len(ref_blocks), len(ar_data), len(ref_data)), "rate": rate, "sw": w, "ch": ch, "samples": n}
         except Exception as e:
             viol = viol or {"what": "building or reading a reader from positional arguments raised %s: %s" % (type(e).__name__, e)}
+        # two readers of the same shape over different audio, read alternately: nothing is shared between reader objects
+        evals += 1
+        try:
+            other = bytes(reversed(data))
+            qa = Recorder(data, block_dur=bd, hop_dur=hd, max_read=mr, **kw); qb = Recorder(other, block_dur=bd, hop_dur=hd, max_read=mr, **kw)
+            qa.open(); qb.open()
+            sa = []
+            for _k in range(len(ref_blocks) + 2):
+                xa_ = qa.read(); qb.read()
+                if xa_ is not None:
+                    sa.append(bytes(xa_))
+            qa.rewind(); qb.rewind()
+            if viol is None and (sa != ref_blocks or bytes(qa.data) != ref_data):
+                viol = {"what": "two Recorders (block %d, hop %r samples, max_read %r) over different audio read alternately: the first delivers %d blocks / records %d bytes, alone it delivers %d blocks / records %d bytes" % (
+                    W, H, mr, len(sa), len(bytes(qa.data)), len(ref_blocks), len(ref_data)), "rate": rate, "sw": w, "ch": ch, "samples": n}
+        except Exception as e:
+            viol = viol or {"what": "two recorders read alternately raised %s: %s" % (type(e).__name__, e)}
         # open() on a reader that is already open is a no-op (split() itself calls open() on the reader it is given): the blocks
         # after it continue the sequence
         evals += 1
